@@ -143,6 +143,7 @@ func c19Run(c *core.Ctx) {
 		Bound        int      `json:"preemption_bound"`
 		Capped       []string `json:"capped"`
 		ReplayChecks int64    `json:"replay_determinism_checks"`
+		Reached      []int    `json:"points_reached"`
 		Violations   []struct {
 			Scenario json.RawMessage `json:"scenario"`
 			Schedule []int           `json:"schedule"`
@@ -180,11 +181,34 @@ func c19Run(c *core.Ctx) {
 	// instrumentation report
 	if b, err := os.ReadFile(filepath.Join(verifDir(), "bin", "points.json")); err == nil {
 		var rep struct {
-			Points  []json.RawMessage   `json:"points"`
+			Points []struct {
+				ID     int      `json:"id"`
+				File   string   `json:"file"`
+				Line   int      `json:"line"`
+				Writes []string `json:"writes"`
+				Init   bool     `json:"in_init"`
+			} `json:"points"`
 			Tracked map[string][]string `json:"tracked_variables"`
 		}
 		if json.Unmarshal(b, &rep) == nil {
 			c.Add("instrumentation_points", int64(len(rep.Points)))
+			// coverage of the write sites: a statement that writes a package-level variable and that no scenario ever
+			// executed has not been explored at all — recorded as a cap (the exploration is then not exhaustive)
+			seen := map[int]bool{}
+			for _, p := range out.Reached {
+				seen[p] = true
+			}
+			nw := int64(0)
+			for _, p := range rep.Points {
+				if len(p.Writes) == 0 || p.Init {
+					continue
+				}
+				nw++
+				if !seen[p.ID] {
+					c.Cap(fmt.Sprintf("write to %s at %s:%d is never executed by the operation alphabet", strings.Join(p.Writes, ","), p.File, p.Line))
+				}
+			}
+			c.Add("package_variable_write_sites", nw)
 			for pkg, vs := range rep.Tracked {
 				for _, v := range vs {
 					c.Seen("conflict_relevant_package_variables", strings.TrimPrefix(pkg, "github.com/free5gc/nas/")+"."+v)
